@@ -63,6 +63,7 @@ struct Walk {
     Rng& r;
     std::vector<Step> path;
     bool via_json = false;        // an enclosing type decodes through basic_json + try_as
+    bool wide = false;            // sites are offered for the wchar_t routes (wjson / wide JSON text): std::wstring is then the same-character-type string
     std::map<std::string, std::pair<size_t, Site>> res;   // one reservoir slot per damage kind
     explicit Walk(Rng& rr) : r(rr) {}
     template <class F> void offer(const char* kind, F make) {
